@@ -90,6 +90,17 @@ struct C16 : Harness {
         Exec ex(api, eo);
         ex.planted_vtable = canary + 1024; ex.planted_ctx = canary + 2048;
         Transcript t = ex.run(p);
+        // ... however many blocks that object held (one today; the number is the implementation's business)
+        if (orphans) {
+            orphans = 0;
+            // (live_after has one entry per executed call; `new.` ops are not calls)
+            size_t calls = 0;
+            for (size_t i = 0; i < p.size(); ++i) {
+                if (p[i].name.rfind("new.", 0) == 0) continue;
+                if (p[i].geti("failat")) { orphans = calls ? mh.live_after[calls - 1] : 0; break; }
+                ++calls;
+            }
+        }
         Model m;
         std::vector<MRec> exp = m.run(p);
         bool injected = false;
